@@ -107,7 +107,10 @@ def u_make_empty_flows(W, sk):
     elif sk["bad"] == "unknown_target":
         defs.append(FlowDefinition(from_process_name="use", to_process_name="nowhere", dim_letters=("t",)))
     dsnap = list(dims.dim_list)
+    overrides = [d.name_override for d in defs]
+    def_snap = [d.model_dump() for d in defs]
     out = W.call(lambda: make_empty_flows(processes=processes, flow_definitions=defs, dims=dims, naming=naming))
+    W.prove("make_empty_flows.definitions_unchanged", [d.model_dump() for d in defs] == def_snap, kind="frame", detail=str([d.name_override for d in defs]))
     if sk["bad"]:
         SL.check_raises(W, "make_empty_flows(undefined process)", out, KeyError)
         return
@@ -115,17 +118,21 @@ def u_make_empty_flows(W, sk):
     if out.kind != "return":
         return
     flows = out.value
-    want_names = []
-    for d in defs:
-        a, b = processes[d.from_process_name], processes[d.to_process_name]
-        if d.name_override is not None:
-            want_names.append(d.name_override)
-        elif sk["naming"] == "arrow":
-            want_names.append(f"{a.name} => {b.name}")
-        elif sk["naming"] == "no_spaces":
-            want_names.append(f"{a.name.replace(' ', '_')}_to_{b.name.replace(' ', '_')}")
-        else:
-            want_names.append(f"F{a.id}_{b.id}")
+    def names_under(kind):
+        out_ = []
+        for d, ov in zip(defs, overrides):
+            a, b = processes[d.from_process_name], processes[d.to_process_name]
+            if ov is not None:
+                out_.append(ov)
+            elif kind == "arrow":
+                out_.append(f"{a.name} => {b.name}")
+            elif kind == "no_spaces":
+                out_.append(f"{a.name.replace(' ', '_')}_to_{b.name.replace(' ', '_')}")
+            else:
+                out_.append(f"F{a.id}_{b.id}")
+        return out_
+
+    want_names = names_under(sk["naming"])
     W.prove("make_empty_flows.one_flow_per_definition_under_its_name", isinstance(flows, dict) and list(flows.keys()) == want_names, detail=str(list(flows.keys()) if isinstance(flows, dict) else flows))
     if not (isinstance(flows, dict) and list(flows.keys()) == want_names):
         return
@@ -136,6 +143,11 @@ def u_make_empty_flows(W, sk):
         SL.check_same_array(W, f"flow[{nm}]", Outcome("return", f), exp)
         W.prove(f"flow[{nm}].own_dimension_set", f.dims is not dims and f.dims.dim_list is not dims.dim_list, kind="ownership")
     W.prove("make_empty_flows.system_dims_unchanged", len(dims.dim_list) == len(dsnap) and all(a is b for a, b in zip(dims.dim_list, dsnap)), kind="frame")
+    # a second build from the same definitions under another naming function gives that function's names
+    other = {"arrow": "ids", "no_spaces": "arrow", "ids": "no_spaces"}[sk["naming"]]
+    naming2 = {"arrow": fn.process_names_with_arrow, "no_spaces": fn.process_names_no_spaces, "ids": fn.process_ids}[other]
+    out2 = W.call(lambda: make_empty_flows(processes=processes, flow_definitions=defs, dims=dims, naming=naming2))
+    W.prove("make_empty_flows.second_build_uses_its_own_naming", out2.kind == "return" and isinstance(out2.value, dict) and list(out2.value.keys()) == names_under(other), detail=str(list(out2.value.keys())) if out2.kind == "return" else repr(out2))
 
 
 # ----------------------------------------------------------------------------------------
@@ -195,7 +207,9 @@ def u_make_empty_stocks(W, sk):
     processes = make_processes(["sysenv", "use", "waste"])
     cls, ltc = stock_cases()[sk["case"]]
     sd = StockDefinition(name="my stock", process_name=sk["process"], dim_letters=tuple(sk["letters"]), time_letter="t", subclass=cls, lifetime_model_class=ltc, solver=sk["solver"])
+    sd_snap = sd.model_dump()
     out = W.call(lambda: make_empty_stocks(stock_definitions=[sd], processes=processes, dims=dims))
+    W.prove("make_empty_stocks.definition_unchanged", sd.model_dump() == sd_snap, kind="frame")
     if sk["process"] == "nowhere":
         SL.check_raises(W, "make_empty_stocks(undefined process)", out, KeyError)
         return
